@@ -20,7 +20,7 @@ import myokit  # noqa: E402
 import pints  # noqa: E402
 
 LIB = os.path.join(os.path.dirname(os.path.abspath(chi.__file__)), 'library', 'model_library')
-OBS = {'m1': 'Obs A', 'm2': 'Obs B', 'mx': 'Obs X', 'mv': 'Obs A', 'c': 'Weight'}
+OBS = {'md': 'Obs A', 'm1': 'Obs A', 'm2': 'Obs B', 'mx': 'Obs X', 'mv': 'Obs A', 'c': 'Weight'}
 OUTPUTS = ['central.drug_amount', 'central.drug_concentration']
 
 
@@ -31,7 +31,7 @@ def make_frame(data, id_as_string, rng, replic=False):
         t = np.nan if r['t'] == 0 else 0.5 * r['t']
         row = {'ID': idv, 'Time': t, 'Observable': np.nan, 'Value': np.nan, 'Dose': np.nan, 'Duration': np.nan,
                'Comment': 'row %d' % k}
-        if r['kind'] in ('m1', 'm2', 'mx'):
+        if r['kind'] in ('m1', 'm2', 'mx', 'md'):
             row['Observable'] = OBS[r['kind']]
             row['Value'] = meas_value(k, r, replic)
             if replic:
@@ -41,9 +41,9 @@ def make_frame(data, id_as_string, rng, replic=False):
         elif r['kind'] == 'c':
             row['Observable'] = OBS['c']
             row['Value'] = cov_value(r['v'])
-        elif r['kind'] in ('d', 'db'):
+        if r['kind'] in ('d', 'db', 'md'):      # "md": the measurement row carries a dose as well
             row['Dose'] = 2.0 * r['v']
-            if r['kind'] == 'd':
+            if r['kind'] != 'db':
                 row['Duration'] = 0.25 * r['v']
         rows.append(row)
     return pd.DataFrame(rows, columns=['Comment', 'ID', 'Time', 'Observable', 'Value', 'Dose', 'Duration'])
@@ -87,8 +87,10 @@ def replay_case(arg):
     data, post = rec['data'], rec['posterior']
     kinds = [r['kind'] for r in data[:-(2 * len(post['ids']) + 1)]]
     feats = ['mode_' + mode]
-    if any(k in ('d', 'db') for k in kinds):
+    if any(k in ('d', 'db', 'md') for k in kinds):
         feats.append('has_dose_rows')
+    if 'md' in kinds:
+        feats.append('dose_on_a_measurement_row')
     if any(k in ('mx', 'mv') for k in kinds) or any(r['t'] == 0 and r['kind'] != 'c' for r in data):
         feats.append('has_irrelevant_rows')
     if post['ids'] != sorted(post['ids']):
@@ -191,7 +193,7 @@ def replay_case(arg):
                 return m, obs, tms
             # measurement values: find the rows in order
             def meas_vals(i_int, kind):
-                return [meas_value(kk, r, replic) for kk, r in enumerate(data) if r['id'] == i_int and r['kind'] == kind and r['t'] != 0]
+                return [meas_value(kk, r, replic) for kk, r in enumerate(data) if r['id'] == i_int and (r['kind'] == kind or (kind == 'm1' and r['kind'] == 'md')) and r['t'] != 0]
             lls = []
             for k, i in enumerate(ids):
                 m, _, tms = hand_ll(k)
